@@ -85,6 +85,11 @@ def gen_cases(rng, tier):
     for n, chunk in big:
         cases.append(S.mk_case(rng, [S.gen_pix_call(rng, n, convert=False, n_runs=1)], sink=rng.choice(['bytesio', 'file']),
                                chunk=chunk, tags=['big']))
+    # one array write above 1 MiB per sink (a single chunk of > 29127 pixels): block-wise copying paths
+    for sink in ('bytesio', 'file'):
+        n = rng.randrange(29500, 33000)
+        cases.append(S.mk_case(rng, [S.gen_pix_call(rng, n, convert=False, n_runs=1)], sink=sink,
+                               chunk=rng.choice([n, n + 1, 65536]), tags=['big', 'single-write-above-1MiB']))
     # 4. string lengths 0, 1, 255, 256, 70000 for title / run file names / paths / names
     for L in (0, 1, 255, 256, 70000):
         t = S.ascii_string(rng, L)
